@@ -499,6 +499,7 @@ type Clause struct {
 	Tags  []string // property ids
 	Expr  SExpr
 	Src   string
+	Callee string
 	Loop  int // for invariant/decreases: loop ordinal (1-based)
 	File  string
 	Line  int
@@ -533,6 +534,8 @@ type FuncContract struct {
 	Lemmas    []string
 	CallAsserts map[string][]*Clause
 	RawCapacity bool
+	StmtAsserts map[string][]*Clause
+	MustCalls   []*Clause
 }
 
 type SpecFunc struct {
@@ -582,6 +585,21 @@ func NewContracts() *Contracts {
 
 // flags: variant flags for #if lines.
 func (cs *Contracts) LoadFile(path string, flags map[string]bool) error {
+	trusted := strings.HasPrefix(path, "trusted:")
+	path = strings.TrimPrefix(path, "trusted:")
+	if trusted {
+		before := map[string]bool{}
+		for k := range cs.Funcs {
+			before[k] = true
+		}
+		defer func() {
+			for k, fc := range cs.Funcs {
+				if !before[k] {
+					fc.Trusted = true
+				}
+			}
+		}()
+	}
 	data, err := os.ReadFile(path)
 	if err != nil {
 		return err
@@ -1013,6 +1031,35 @@ func parseClause(fc *FuncContract, word, rest, file string, line int) error {
 			fc.CallAsserts = map[string][]*Clause{}
 		}
 		fc.CallAsserts[callee] = append(fc.CallAsserts[callee], &Clause{Kind: "call-assert", Label: label, Tags: tags, Expr: e, Src: src, File: file, Line: line})
+	case "at":
+		// at "<first line of a statement>" assert [label] expr
+		rest = strings.TrimSpace(rest)
+		if !strings.HasPrefix(rest, "\"") {
+			return fmt.Errorf("at \"stmt\" assert [label] expr")
+		}
+		j := strings.Index(rest[1:], "\" assert")
+		if j < 0 {
+			return fmt.Errorf("at \"stmt\" assert [label] expr")
+		}
+		key := strings.Join(strings.Fields(rest[1:1+j]), " ")
+		label, tags, src := parseLabel(rest[1+j+len("\" assert"):])
+		e, err := parseSpecExpr(src)
+		if err != nil {
+			return err
+		}
+		if fc.StmtAsserts == nil {
+			fc.StmtAsserts = map[string][]*Clause{}
+		}
+		fc.StmtAsserts[key] = append(fc.StmtAsserts[key], &Clause{Kind: "stmt-assert", Label: label, Tags: tags, Expr: e, Src: src, File: file, Line: line})
+	case "must-call":
+		// must-call <callee> [label tags] expr   (expr over this function's names and the callee's parameter/result names)
+		callee, r2 := splitWord(rest)
+		label, tags, src := parseLabel(r2)
+		e, err := parseSpecExpr(src)
+		if err != nil {
+			return err
+		}
+		fc.MustCalls = append(fc.MustCalls, &Clause{Kind: "must-call", Label: label, Tags: tags, Expr: e, Src: callee + ": " + src, File: file, Line: line, Callee: callee})
 	case "pure":
 		fc.Pure = true
 		fc.HasMod = true
